@@ -1,4 +1,4 @@
-import CddVerif.Proofs.Exmod
+import CddVerif.Proofs.ExmodConfined
 /-!
 # C20 — `exmod --dry-run` writes nothing; a real run stays inside the output directory
 
@@ -42,6 +42,105 @@ theorem dry_run_no_target (cfg : Cfg) (env : Env) (fs : FS) (h : cfg.dryRun = tr
   intro e he
   have := dry_run_pure cfg env fs h e he
   cases e <;> simp_all [Effect.isPrint, Effect.target?]
+
+/-! ## Clauses 2 and 3 — a real run stays inside the output directory; the source package is not a target -/
+
+/-- **`confined`, full statement** (clause "without it, everything created lies under the given output directory"):
+    every `mkdir` / `open(…, "a")` / `open(…, "w")` of a real run has the output directory as a (component-wise) prefix.
+    It is **false** of the code as it is — see the three witnesses below. -/
+def confined_full : Prop :=
+  ∀ (cfg : Cfg) (env : Env) (fs : FS), cfg.dryRun = false →
+    ∀ e ∈ trace cfg env fs, ∀ p, e.target? = some p → underB cfg.out p = true
+
+/-- **`confined_partial`**: the full conclusion on the decidable domain `Exmod.inDomain` —
+    absolute output directory without trailing slash whose parent exists; new module name relative and *not* a dotted
+    suffix of the output directory; package names giving relative directories; every item handed to
+    `emit_file_on_hierarchy` stripped at a component boundary (`Exmod.itemOk`).
+    Missing for the full statement: exactly the complement of that domain, where the statement is false
+    (`confined_fails_*`).  Holds for every emit kind list, recursion flag, blacklist/whitelist, pre-existing output. -/
+theorem confined_partial (cfg : Cfg) (env : Env) (fs : FS) (hd : inDomain cfg env fs = true) :
+    ∀ e ∈ trace cfg env fs, ∀ p, e.target? = some p → underB cfg.out p = true := by
+  intro e he p hp
+  cases hdry : cfg.dryRun with
+  | true =>
+    have := dry_run_no_target cfg env fs hdry e he
+    rw [this] at hp; cases hp
+  | false =>
+    unfold inDomain at hd
+    simp only [Bool.and_eq_true, Bool.not_eq_true', bne_iff_ne, ne_eq, List.all_eq_true] at hd
+    obtain ⟨⟨⟨⟨⟨⟨habs, hns⟩, hpar⟩, hrel⟩, hnm⟩, hpk⟩, hit⟩ := hd
+    have ho : OutOk cfg.out := ⟨habs, hns⟩
+    have h := conf_exmodCli ho cfg env rfl hdry hrel hnm hpk fs ⟨hpar, by intro x hx; cases hx⟩ hit
+    exact h.1 e he p hp
+
+/-- **source package never a target** (clause "the source package is not modified"): on the same domain, a path that is
+    not below the output directory — in particular every file of the source package — is not created, opened for
+    appending or written by any effect of the run. -/
+theorem source_never_target (cfg : Cfg) (env : Env) (fs : FS) (hd : inDomain cfg env fs = true)
+    (src : Path) (hsrc : underB cfg.out src = false) : ∀ e ∈ trace cfg env fs, e.target? ≠ some src := by
+  intro e he h
+  have := confined_partial cfg env fs hd e he src h
+  rw [hsrc] at this; cases this
+
+/-! ### concrete package trees (non-vacuity and negations) -/
+
+/-- `/s/p/__init__.py`: `from p.a import A; __all__ = ["A"]`, `/s/p/a.py`: `class A` -/
+def fsRe : FS :=
+  { dirs := [c!"/", c!"/s", c!"/s/p", c!"/o"],
+    files := [(c!"/s/p/__init__.py", ⟨[.from_ { module := some c!"p.a", names := [(c!"A", none)] }, .all_ [c!"A"]],
+                                       [{ module := some c!"p.a", names := [(c!"A", none)] }]⟩),
+              (c!"/s/p/a.py", ⟨[.def_ c!"A"], []⟩)] }
+def envRe : Env := { specs := [(c!"p", c!"/s/p/__init__.py"), (c!"p.a", c!"/s/p/a.py")], allPackages := [] }
+def cfgRe (out : Path) (dry : Bool) : Cfg :=
+  { emitNames := [.class_], module := c!"p", blacklist := [], whitelist := [], out := out, target := none,
+    sqlSub := false, recursive := false, dryRun := dry }
+
+/-- non-vacuity of `confined_partial` / `source_never_target`: a re-exporting package is in the domain and the run
+    does write (`/o/d/a.py`) -/
+example : inDomain (cfgRe c!"/o/d" false) envRe fsRe = true := by decide +kernel
+example : Effect.openW c!"/o/d/a.py" ∈ trace (cfgRe c!"/o/d" false) envRe fsRe := by decide +kernel
+/-- non-vacuity of `dry_run_pure`: the dry run of the same configuration prints eleven lines -/
+example : (trace (cfgRe c!"/o/d" true) envRe fsRe).length = 0 := by decide +kernel
+
+/-- **negation 1** (known finding C20-init-above-output): output directory `/o/gold` for `-m p` ⇒ `/o/__init__.py`,
+    outside the output directory, is opened for appending. -/
+theorem confined_fails_init_above_output :
+    Effect.openA c!"/o/__init__.py" ∈ trace (cfgRe c!"/o/gold" false) envRe fsRe ∧
+    underB c!"/o/gold" c!"/o/__init__.py" = false := by decide +kernel
+
+/-- `/s/p/__init__.py` defines `p_x` itself -/
+def fsClash : FS :=
+  { dirs := [c!"/", c!"/s", c!"/s/p", c!"/o"], files := [(c!"/s/p/__init__.py", ⟨[.def_ c!"p_x"], []⟩)] }
+def envClash : Env := { specs := [(c!"p", c!"/s/p/__init__.py")], allPackages := [] }
+
+/-- **negation 2** (known finding C20-src-init-overwrite): a def in the package's `__init__.py` whose name starts with the
+    module name ⇒ the *source* `__init__.py` is written. -/
+theorem confined_fails_source_written :
+    Effect.openW c!"/s/p/__init__.py" ∈ trace (cfgRe c!"/o/d" false) envClash fsClash ∧
+    underB c!"/o/d" c!"/s/p/__init__.py" = false := by decide +kernel
+
+/-- `/s/ut/__init__.py`: `from utx.h import H; __all__ = ["H"]` (a package importing from a package whose name is its own
+    plus one character) -/
+def fsRoot : FS :=
+  { dirs := [c!"/", c!"/s", c!"/s/ut", c!"/s/utx", c!"/o"],
+    files := [(c!"/s/ut/__init__.py", ⟨[.from_ { module := some c!"utx.h", names := [(c!"H", none)] }, .all_ [c!"H"]],
+                                        [{ module := some c!"utx.h", names := [(c!"H", none)] }]⟩),
+              (c!"/s/utx/__init__.py", ⟨[], []⟩), (c!"/s/utx/h.py", ⟨[.def_ c!"H"], []⟩)] }
+def envRoot : Env :=
+  { specs := [(c!"ut", c!"/s/ut/__init__.py"), (c!"utx", c!"/s/utx/__init__.py"), (c!"utx.h", c!"/s/utx/h.py")], allPackages := [] }
+
+/-- **negation 3** (model-level; same `[len(module_name)+1:]` defect): the key `utx.h.H.H` "starts with" the module name
+    `ut`, is cut to `.h.H.H`, and `mod_path` becomes the absolute `/h/H`: a directory at the file-system root. -/
+theorem confined_fails_root_escape :
+    Effect.mkdir c!"/h" ∈ trace ({ cfgRe c!"/o/d" false with module := c!"ut" }) envRoot fsRoot ∧
+    underB c!"/o/d" c!"/h" = false := by decide +kernel
+
+theorem confined_full_false : ¬ confined_full := by
+  intro h
+  have h1 : underB c!"/o/gold" c!"/o/__init__.py" = true :=
+    h (cfgRe c!"/o/gold" false) envRe fsRe rfl _ confined_fails_init_above_output.1 _ rfl
+  rw [confined_fails_init_above_output.2] at h1
+  cases h1
 
 /-! ## Clause 4 — blacklist/whitelist gate -/
 
